@@ -18,8 +18,8 @@ type (
 	Cond      = sync.Cond
 )
 
-func OnceFunc(f func()) func()                  { return sync.OnceFunc(f) }
-func OnceValue[T any](f func() T) func() T      { return sync.OnceValue(f) }
+func OnceFunc(f func()) func()                                 { return sync.OnceFunc(f) }
+func OnceValue[T any](f func() T) func() T                     { return sync.OnceValue(f) }
 func OnceValues[T1, T2 any](f func() (T1, T2)) func() (T1, T2) { return sync.OnceValues(f) }
 
 // Mutex: the scheduler decides when Lock may proceed; the real mutex is still
